@@ -16,7 +16,7 @@ type asgGen struct {
 	allowTag func(tags map[string]bool) bool
 }
 
-var c09Keys = []string{"a", "b", "c", "list", "k"}
+var c09Keys = []string{"a", "b", "c", "list", "k", "length", "pluck"} // two of them are also method names of objects: an own member of that name is an ordinary member
 
 func (g *asgGen) genDocVal(depth int) any {
 	k := g.rng.IntN(10)
@@ -567,6 +567,35 @@ func c09EnumPrograms() []*Program {
 
 var c09Enum = c09EnumPrograms()
 
+// ---- laws on the implementation alone (results computed by hand)
+var c09Text = []struct{ prog, want string }{
+	// every evaluation of an array / object literal gives new cells
+	{"function mk() { return [1, 2, 3, 4, 5, 6, 7, 8, 9] } BEGIN { a = mk(); b = mk(); a[0] = 'changed'; a[8]++; b[1] += 5; print a, b, mk() }", "[\"changed\", 2, 3, 4, 5, 6, 7, 8, 10] [1, 7, 3, 4, 5, 6, 7, 8, 9] [1, 2, 3, 4, 5, 6, 7, 8, 9]\n"},
+	{"BEGIN { for (i in [1, 2]) { t = ['a', 'b', 'c', 'd', 'e', 'f', 'g', 'h']; t[i] = t[i] + '!'; print t } }", "[\"a\", \"b!\", \"c\", \"d\", \"e\", \"f\", \"g\", \"h\"]\n[\"a\", \"b\", \"c!\", \"d\", \"e\", \"f\", \"g\", \"h\"]\n"},
+	{"BEGIN { rows = [] } { row = [0, 0, 0, 0, 0, 0, 0, 0, true, null, 'x']; row[$.i] = $.v; rows.push(row) } END { print rows }", "[[0, 0, 7, 0, 0, 0, 0, 0, true, null, \"x\"], [0, 0, 0, 0, 0, 8, 0, 0, true, null, \"x\"]]\n"},
+	{"function cfg() { return {a: 1, b: 2, c: 3, d: 4, e: 5, f: 6, g: 7, h: 8} } BEGIN { x = cfg(); y = cfg(); x.a = 'changed'; y.h++; print x.a, y.a, x.h, y.h, cfg().a }", "changed 1 8 9 1\n"},
+	// own keys named like methods are ordinary members
+	{"BEGIN { o = {length: 5, pluck: 'p', push: 1, k: 2}; print o.length, o['pluck'], o.push, o.k; o.length = 6; o.pluck += 'q'; o.push++; print o, o.length }", "5 p 1 2\n{\"k\": 2, \"length\": 6, \"pluck\": \"pq\", \"push\": 2} 6\n"},
+	{"BEGINFILE { print $.length, $.pluck; $.length++; $.pluck = 'new'; $.contains = [1]; print $ }", "1 x\n{\"a\": 3, \"contains\": [1], \"i\": 2, \"length\": 2, \"pluck\": \"new\", \"v\": 7}\n1 x\n{\"a\": 3, \"contains\": [1], \"i\": 5, \"length\": 2, \"pluck\": \"new\", \"v\": 8}\n"},
+	// a store to a member named like a method creates the member (the method is looked up only when there is no such member)
+	{"BEGIN { o = {}; o.length = 3; o.sort = 's'; o.upper = o.length + 1; print o, o.length, o.sort, o.upper }", "{\"length\": 3, \"sort\": \"s\", \"upper\": 4} 3 s 4\n"},
+	{"BEGIN { o = {k: 1}; print o.length(), o.pluck('k'); o.length = 'own'; o['pluck'] = 2; o.contains = [1]; print o.length, o }", "1 {\"k\": 1}\nown {\"contains\": [1], \"k\": 1, \"length\": \"own\", \"pluck\": 2}\n"},
+	{"{ $.push = $.a; $.sort = $.push + 1; print $ }", "{\"a\": 3, \"i\": 2, \"length\": 1, \"pluck\": \"x\", \"push\": 3, \"sort\": 4, \"v\": 7}\n{\"a\": 3, \"i\": 5, \"length\": 1, \"pluck\": \"x\", \"push\": 3, \"sort\": 4, \"v\": 8}\n"},
+}
+
+func c09TextRun(c *Case, k int) {
+	t := c09Text[k]
+	in := `{"length": 1, "pluck": "x", "a": 3, "i": 2, "v": 7} {"length": 1, "pluck": "x", "a": 3, "i": 5, "v": 8}`
+	lib := RunLib(t.prog, []InFile{{Name: "in.json", Data: []byte(in)}}, nil, RunOpts{Budget: 200000})
+	c.NonTrivial("text:" + t.prog)
+	c.Count("hand_computed_programs")
+	if lib.Class == "ok" && string(lib.Stdout) == t.want {
+		c.Held()
+		return
+	}
+	c.Violation(fmt.Sprintf("want %q, got %s (%s) %q | program: %s", t.want, lib.Class, lib.Msg, clip(string(lib.Stdout), 200), t.prog), nil, map[string]any{"program": t.prog, "input": in})
+}
+
 func c09Cases(tier string) int {
 	if tier == "thorough" {
 		return len(c09AliasForms) + len(c09Enum) + 1000000 + 600000
@@ -577,6 +606,10 @@ func c09Cases(tier string) int {
 func c09Run(c *Case) {
 	i := c.Idx
 	na := len(c09AliasForms)
+	if i >= na && i < na+len(c09Text) {
+		c09TextRun(c, i-na)
+		return
+	}
 	if i >= na && i < na+len(c09Enum) {
 		c.NonTrivial(fmt.Sprintf("enum:%d", i-na))
 		c.Count("enumerated_shrink_extend_and_literal_copy_programs")
